@@ -380,7 +380,7 @@ class Gen:
         if k == "T":
             return ["T", r.choice(["C", "A"])]
         if k == "N":
-            return ["N", r.choice([None, 0, 1, 7, 2**40])]
+            return ["N", r.choice([None, 1, 2, 7, 2**40])]   # (an upper bound is a non-zero number)
         if k == "L":
             return ["L", self.param(depth - 1)]
         if k == "Tup":
@@ -403,7 +403,7 @@ class Gen:
             return ["t", self.ty(depth)]
         if k == "N":
             ub = p[1]
-            return ["n", r.randint(0, ub) if ub is not None and ub < 100 else r.choice([0, 3, 2**33])]
+            return ["n", r.randint(0, ub - 1) if ub is not None and ub < 100 else r.choice([0, 3, 2**33])]
         if k == "S":
             return ["s", r.choice(["", "hello", "ünï", "a\"b"])]
         if k == "L":
